@@ -138,6 +138,16 @@ def ops(nrows_hint):
     def op_set_bigarray(cf, sh):
         if not cf.titles: return None
         cols = [newcol(cf.nrows + 1, "big") for _ in cf.titles]; cf.bigarray = cols; sh.cols = [list(c) for c in cols]; return cf, sh, []
+    # ---- arguments that are views of the object's own columns (cf.addcolumn(cf.tth, "tth_old"), cf.a = cf.b, cf.a = cf.a[::-1]): value semantics in the shadow
+    def op_add_alias_new(cf, sh):
+        if not cf.titles: return None
+        name = "v%d" % len(cf.titles); cf.addcolumn(cf[cf.titles[-1]], name); sh.titles.append(name); sh.cols.append(list(sh.cols[-1])); return cf, sh, []
+    def op_setattr_alias(cf, sh):
+        if len(cf.titles) < 2: return None
+        setattr(cf, cf.titles[0], cf[cf.titles[-1]]); sh.cols[0] = list(sh.cols[-1]); return cf, sh, []
+    def op_setattr_flip(cf, sh):
+        if not cf.titles: return None
+        setattr(cf, cf.titles[0], getattr(cf, cf.titles[0])[::-1]); sh.cols[0] = list(sh.cols[0])[::-1]; return cf, sh, []
     def op_write_through(cf, sh):
         """write through one view, read through the others (the user-visible meaning of 'same data')"""
         if not cf.titles or cf.nrows == 0: return None
@@ -145,7 +155,7 @@ def ops(nrows_hint):
     return [("addcolumn(new)", op_add_new), ("addcolumn(existing)", op_add_over), ("setcolumn", op_setcolumn), ("cf[t]=array", op_setitem_arr), ("cf[t]=scalar", op_setitem_scalar),
             ("cf[new]=array", op_setitem_new), ("cf.t=array", op_setattr_arr), ("cf.t=scalar", op_setattr_scalar), ("filter", op_filter), ("removerows", op_removerows),
             ("sortby", op_sortby), ("reorder", op_reorder), ("copy", op_copy), ("copyrows", op_copyrows), ("get_bigarray", op_get_bigarray), ("set_bigarray", op_set_bigarray),
-            ("cf[t][:]=scalar", op_write_through)]
+            ("cf[t][:]=scalar", op_write_through), ("addcolumn(view of a column, new name)", op_add_alias_new), ("cf.t=view of another column", op_setattr_alias), ("cf.t=cf.t[::-1]", op_setattr_flip)]
 
 def term_float(x):
     t = z3.simplify(term(x)); return float(t.as_fraction())
@@ -292,6 +302,7 @@ def finding_key(seq, msg):
     ops_ = [s.replace("(n/a)", "") for s in seq]
     if "bare float" in msg or "bare int" in msg or ("cf.t=scalar" in ops_ and "raised" in msg): return "columnfile.py:__setattr__:scalar-replaces-column-attribute"
     if "get_bigarray" in ops_ and ("different storage" in msg or "views" in msg): return "columnfile.py:get_bigarray:views-desynchronised"
+    if any("view of" in o for o in ops_) and any(o in ("sortby", "reorder", "cf[t][:]=scalar") for o in ops_) and "holds" in msg: return "columnfile.py:addcolumn:aliased-columns-permuted-twice"
     return "columnfile:%s:%s" % (ops_[-1] if ops_ else "?", msg.split(":")[-1][:40])
 
 if __name__ == "__main__":
